@@ -60,6 +60,8 @@ pub enum Op {
     Untrust(u8),
     MinterMint { slot: u8, to: u8, amount: u8 },
     OutUnknownToken { user: u8 },
+    /// outbound transfer to a chain name that differs from a trusted one only in letter case / a trailing space
+    OutLookalikeChain { user: u8, tok: u8, chain: u8, space: bool },
     AdvanceDays(u8),
 }
 
@@ -96,6 +98,7 @@ fn op() -> impl Strategy<Value = Op> {
         1 => (0u8..2, 0u8..NU as u8, 1u8..100).prop_map(|(slot, to, amount)| Op::MinterMint { slot, to, amount }),
         1 => (0u8..NU as u8).prop_map(|user| Op::OutUnknownToken { user }),
         1 => (1u8..60).prop_map(Op::AdvanceDays),
+        1 => (0u8..NU as u8, 0u8..5, 0u8..3, any::<bool>()).prop_map(|(user, tok, chain, space)| Op::OutLookalikeChain { user, tok, chain, space }),
     ]
 }
 
@@ -263,6 +266,27 @@ impl Property for C05 {
                             bal[s][to] += *amount as i128;
                             supply[s] += *amount as i128;
                         }
+                    }
+                }
+                Op::OutLookalikeChain { user, tok, chain, space } => {
+                    let u = *user as usize % NU;
+                    let ti = *tok as usize % 5;
+                    let c = *chain as usize % 3;
+                    if let Some(t) = &toks[ti] {
+                        let name = if *space { format!("{} ", CHAINS[c]) } else { CHAINS[c].to_uppercase() };
+                        let snap0 = snapshot(env);
+                        let r = w.its.client.try_interchain_transfer(
+                            &w.users[u],
+                            &BytesN::from_array(env, &t.id),
+                            &sstr(env, &name),
+                            &Bytes::from_slice(env, &[1, 2, 3]),
+                            &1,
+                            &None,
+                            &w.gas_token(1),
+                        );
+                        cx.count("must_fail");
+                        ensure_p!(!matches!(r, Ok(Ok(()))), "step {}: transfer toward {:?}, which was never set as a trusted chain, succeeded", step, name);
+                        ensure_p!(snapshot(env) == snap0, "step {}: refused transfer changed the ledger", step);
                     }
                 }
                 Op::OutUnknownToken { user } => {
